@@ -35,10 +35,23 @@ def observe_hdlc(w):
     return hdlc_obs(fr)
 
 
+def hdlc_run_twin(cfg, chunks, twin):
+    """reader 1 gets `chunks`; after its first call a second reader object of the same configuration reads `twin`"""
+    from han import hdlc
+    r1, r2 = hdlc.HdlcFrameReader(bool(cfg[0]), bool(cfg[1])), hdlc.HdlcFrameReader(bool(cfg[0]), bool(cfg[1]))
+    out = []
+    for k, ch in enumerate(chunks):
+        out += r1.read(bytes.fromhex(ch))
+        if k == 0:
+            for t in twin:
+                r2.read(bytes.fromhex(t))
+    return out
+
+
 def judge_C06(w):
     try:
         a = hdlc_obs(hdlc_run(w["cfg"], w["chunks"])[1])
-        b = hdlc_obs(hdlc_run(w["cfg"], w["chunks2"])[1])
+        b = hdlc_obs(hdlc_run_twin(w["cfg"], w["chunks2"], w["twin"]) if w.get("twin") else hdlc_run(w["cfg"], w["chunks2"])[1])
     except Exception as e:
         return {"signature": "exception:" + exc_signature(e), "detail": repr(e)}
     if a != b:
@@ -228,6 +241,14 @@ def judge_C03(w):
             expg = (data[-2], data[-1]) == (e & 0xFF, e >> 8)
             if bool(f.is_good) != expg:
                 return {"signature": "is_good-differs", "detail": f"data={w['data']} is_good={f.is_good} expected {expg}"}
+    elif k == "mutated":
+        buf = bytearray(bytes.fromhex(w["data"]))
+        F.compute_checksum(buf, 0, w["length"])
+        buf[:] = bytes.fromhex(w["changed"])
+        got = F.compute_checksum(buf, 0, w["length"])
+        exp = ref.fcs16(list(buf[:w["length"]]))
+        if got != exp:
+            return {"signature": "compute_checksum-remembers-earlier-call", "detail": f"same bytearray object changed in place from {w['data']} to {w['changed']}: {got:#06x} vs {exp:#06x}"}
     elif k == "init":
         if F()._crc_value != 0xFFFF or F().checksum != 0:
             return {"signature": "initial-register", "detail": "fresh object register != 0xFFFF"}
@@ -544,7 +565,9 @@ def mc_run(w):
                 mgr.back_off_connect_error.max_delay = w["max_delay"]
         trace, transports, task, mgr = CT.drive(MC, loop, P, w["K"], StopScenario, sched, now_units, configure)
         try:
-            with CT.after_nth_handle(w.get("S"), CT.drive.last_close):
+            if w.get("S") == 0:
+                CT.drive.last_close()
+            with CT.after_nth_handle(w.get("S") or None, CT.drive.last_close):
                 quiescent = loop.run_until_quiescent(None) == "quiescent"      # ends when nothing is scheduled any more (or the scenario is cut)
         except StopScenario:
             quiescent = False
